@@ -81,6 +81,9 @@ def metric(h, n=2, model="poincare"):
     else:
         coshd = np.cosh(d)
     h.eq(f"metric[{model}]", coshd, _metric_formula(h, model, u, v))
+    if not h.is_sym():
+        # float replay only: also compare on the scale of d itself (cosh flattens differences between nearby points: d = 2e-4 is 2e-8 on the cosh scale)
+        h.eq(f"metric[{model}]", d, np.arccosh(np.maximum(np.real(np.asarray(_metric_formula(h, model, u, v), dtype=complex)), 1.0)))
     h.defined("distance-finite", mk)
 
 
